@@ -160,6 +160,11 @@ SUBS = {'lockstep': lockstep}
 TIMEOUTS = {'lockstep': 3000}
 
 
+# sub-spaces re-executed under other interpreter configurations (mc.core.CONFIGS): {configuration: {sub-space: stride}}
+# quick tier: every stride-th planned case, thorough tier: all planned cases
+CONFIG_PASSES = {'x64': {'lockstep': 5}}
+
+
 def plan(ctx):
   th = ctx.tier == 'thorough'
   depth = 4 if th else 2
